@@ -20,9 +20,14 @@ def strings(maxlen, alphabet=SIGMA):
 
 def classify(s):
     cls = []
-    for ch, nm in ((b" ", "space"), (b"\t", "tab"), (b'"', "quote"), (b"\\", "backslash"), (b"#", "hash"), (b"'", "apostrophe"), (b"\xe9", "highbyte")):
+    for ch, nm in ((b" ", "space"), (b"\t", "tab"), (b'"', "quote"), (b"\\", "backslash"), (b"#", "hash"), (b"'", "apostrophe"), (b"\xe9", "highbyte"),
+                   (b"\r", "cr"), (b"\v", "vt"), (b"\f", "ff")):
         if ch in s:
             cls.append(nm)
+    if not cls and any(c < 0x20 or c == 0x7f for c in s):
+        cls.append("control")
+    if not cls and any(c >= 0x80 for c in s):
+        cls.append("highbyte")
     return "+".join(cls) or "plain"
 
 
@@ -124,6 +129,14 @@ def main():
         for tg in tgts:
             for ur in uroots[:2]:
                 cases.append(dict(names=[b"k"], targets=[tg], unpack_root=ur))
+        # the full byte range (except NUL, '/', newline): every byte value first, last, in the middle and alone, in names and in symlink targets
+        for v in range(1, 256):
+            if v in (0x2f, 0x0a):
+                continue
+            ch = bytes([v])
+            nms = [n for n in (ch + b"a", b"a" + ch, b"a" + ch + b"a", ch) if n not in (b".", b"..")]
+            for ur in (None, "out"):
+                cases.append(dict(names=nms, targets=nms, unpack_root=ur))
         if not cr.quick:
             # 16 names per image
             for i in range(0, len(names), 16):
